@@ -995,8 +995,10 @@ def check(prop, tier, seed, units, scratch, t0, args):
 def write_evidence(prop, tier, seed, obs, infos, wall, note=None, violations=0, undecided=(), known=(), only=None):
     os.makedirs(EVID, exist_ok=True)
     level = manifest_level(prop)
-    proof_obs = [o for o in obs if o.get("kind") == "proof"]
-    bounded_obs = [o for o in obs if o.get("kind") != "proof"]
+    # obligations whose failure is a listed known finding are reported under known_findings_hit, not as
+    # (un)discharged obligations
+    proof_obs = [o for o in obs if o.get("kind") == "proof" and not o.get("known_finding")]
+    bounded_obs = [o for o in obs if o.get("kind") != "proof" and not o.get("known_finding")]
     assumptions = []
     trusted = []
     rewrites = {}
